@@ -2,6 +2,8 @@
 //@ default-props C01 C02 C04 C05 C07 C08 C09 C10 C17 C18 C20
 // every call of a function that reaches the file system gets the ghost world (robust to added / removed call sites)
 //@ world-calls /(\w+\.)?(is_dir|is_file|open|rename|remove_file|get_modified|is_executable|set_is_executable|execute_command)|download_file|(\w+\.)*(restore_file|back_up_file_with_ticket|back_up_file)|TicketFactory::from_(file|directory)|get_file_ticket_from_path|get_file_ticket|get_actual_file_state|(\w+\.)*(get_current_file_state_vec|update_to_match_system_file_state|resolve_remembered_file_state_vec|resolve_with_no_current_file_states)|restore_or_download|resolve_single_target|rebuild_node|resolve_with_cache|handle_rule_node|handle_source_only_node|clean_targets/ Tracked(w)
+// output only: `println!` lines are dropped wherever they occur
+//@ unit-rewrite /println!\([^;]*\);/ => <empty>
 // Unit D: cache.rs, blob.rs, history.rs (in-memory part), work.rs -- the per-rule machinery.
 // Function bodies between `//@ extract` and `//@ end` are copied from /repo/src on every run.
 use vstd::prelude::*;
@@ -440,7 +442,6 @@ impl Blob {
 //@ props C02 C05 C07 C08 C09 C10 C20
 //@ ret res
 //@ param Tracked(w): Tracked<&mut World>
-//@ rewrite * /println!\([^;]*\);/ => <empty>
 //@ spec
     requires old(cache).wf(*old(w)), inv(*old(w)), no_urls(*downloader_cache_opt),
         old(w).targets.contains(target_info.path@) && !under(old(w).cache_dir, target_info.path@),
